@@ -55,9 +55,15 @@ pub fn build(e: &mut Ent, words: [Option<u16>; 5], variant: u32) -> (StepCase, T
         code.push((x >> 8) as u8);
         code.push(x as u8);
     }
-    let er = regfile(e);
+    let mut er = regfile(e);
     let avoid: Vec<u32> = er.to_vec();
     let pc = e.code_addr(12, &avoid);
+    // self-reference: one register points into (or right next to) the instruction being executed, so a
+    // memory operand, a pushed frame or a jump target coincides with the instruction's own words
+    if e.chance(1, 6) {
+        let k = e.below(8) as usize;
+        er[k] = (pc as i64 + e.below(24) as i64 - 8).max(0) as u32 | if e.chance(1, 4) { e.upper_byte() } else { 0 };
+    }
     let ccr = e.u8();
     let bus = e.bus_cfg();
     (StepCase { code, pc, er, ccr, patches: vec![], bus, irq: None }, Tag { words: w })
